@@ -74,6 +74,13 @@ Definition equality_verdict (i1 i2 : list kv) (e1 e2 e3 : bool) : list N :=
   else if known_zero i1 i2 e1 e2 e3 then [V_KNOWN 2]
   else [V_SPECFAIL].
 
+(** Value.Emit as observed: the text the implementation emitted for each element of ToSlice. *)
+Definition emit_of (s : list kv) (emits : list bytes) (v : value) : bytes :=
+  match find (fun p => value_eqb v (snd (fst p))) (combine s emits) with
+  | Some p => snd p
+  | None => []
+  end.
+
 Definition is_nil {A} (l : list A) : bool := match l with [] => true | _ => false end.
 
 Definition check_case (c : case) : list N :=
@@ -115,11 +122,12 @@ Definition check_case (c : case) : list N :=
       flag (merge_ok s1 s2 merged) V_SPECFAIL
   | CEnc input set emits encoded =>
       let s := new_set input in
-      flag (kvs_eqb set s && bytes_eqb encoded (encode s emits) &&
+      flag (kvs_eqb set s && bytes_eqb encoded (encode (emit_of s emits) s) &&
             Nat.eqb (length emits) (length s) &&
             forallb (fun p => match emit_simple (snd (fst p)) with
                               | Some e => bytes_eqb e (snd p)
-                              | None => true end) (combine s emits)) V_MISMATCH
+                              | None => true end) (combine s emits)) V_MISMATCH ++
+      flag (encoding_ok set encoded) V_SPECFAIL
   end.
 
 Definition run (cs : list case) : list (N * N) := index_from 0 check_case cs.
